@@ -61,5 +61,77 @@ AigM(t) ==
       [] t.op \in {"forall", "exists"} -> RQuant(t.op, t, A(t.a[1]))
       [] OTHER -> t
 
-RewrModel(proc, t) == IF proc = "nnf" THEN NnfM(t) ELSE AigM(t)
+\* ---------------------------------------------------------------------------------------------------------
+\* PrenexNormalizer.  The walk returns (L, m): m a quantifier-free matrix and L the quantifier list, INNERMOST
+\* first, each entry [q, vs] with vs a SET of variables; the result is m wrapped by L in that order.  Merging the
+\* lists of the arguments of and / or renames a quantified variable that is already "reserved" (free in the whole
+\* formula, or quantified by an earlier entry) to a FRESH symbol.  Fresh symbols are numbered by a counter k that
+\* is threaded through the recursion ("@1", "@2", ...): the code's names differ, conformance is up to a bijection.
+\* Defined for formulas whose quantifiers are in Boolean positions only (elsewhere the code leaves them alone).
+PFresh(k, ty) == BVar("@" \o ToString(k), ty)
+NamesOf(vs) == {v.n : v \in vs}
+PR(qs, m, k) == [qs |-> qs, m |-> m, k |-> k]
+PInvert(qs) == [j \in 1..Len(qs) |-> [q |-> Dual(qs[j].q), vs |-> qs[j].vs]]
+
+\* one quantifier entry merged into the accumulated state st = [qs, m (current sub-matrix), res (reserved names), k]
+PMergeQ(st, e) ==
+    LET needs == {v \in e.vs : v.n \in st.res}
+        ord == SetToSeqBy(needs)
+        fresh == [j \in 1..Len(ord) |-> PFresh(st.k + j, ord[j].ty)]
+        ren == [nm \in NamesOf(needs) |-> fresh[CHOOSE j \in 1..Len(ord) : ord[j].n = nm].n]
+        nvs == (e.vs \ needs) \cup {fresh[j] : j \in 1..Len(ord)}
+    IN  [qs |-> Append(st.qs, [q |-> e.q, vs |-> nvs]),
+         m |-> IF needs = {} THEN st.m ELSE RenameSyms(st.m, ren),
+         res |-> st.res \cup NamesOf(nvs), k |-> st.k + Len(ord)]
+RECURSIVE PMergeQs(_, _)
+PMergeQs(st, qs) == IF qs = <<>> THEN st ELSE PMergeQs(PMergeQ(st, Head(qs)), Tail(qs))
+
+\* walk_conj_disj: op in {"and", "or"}, free = free symbols of the (possibly synthetic) formula, rs = results of the arguments
+RECURSIVE PConjFrom(_, _, _, _, _, _)
+PConjFrom(op, rs, j, qs, ms, resk) ==      \* resk = <<reserved names, k>>
+    IF j > Len(rs) THEN PR(qs, IF op = "and" THEN RAnd(ms) ELSE ROr(ms), resk[2])
+    ELSE LET st == PMergeQs([qs |-> qs, m |-> rs[j].m, res |-> resk[1], k |-> resk[2]], rs[j].qs)
+         IN  PConjFrom(op, rs, j + 1, st.qs, Append(ms, st.m), <<st.res, st.k>>)
+PConj(op, free, rs, k) == PConjFrom(op, rs, 1, <<>>, <<>>, <<NamesOf(free), k>>)
+
+PNot(r) == PR(PInvert(r.qs), RNot(r.m), r.k)
+\* walk_implies(a -> b) = walk_conj_disj(Or(Not a, b)) on (walk_not(ra), rb)
+PImplies(a, b, ra, rb, k) == PConj("or", FreeSyms(a) \cup FreeSyms(b), <<PNot(ra), rb>>, k)
+
+RECURSIVE PrenexW(_, _)
+PrenexW(t, k) ==
+    CASE t.op \in {"and", "or"} ->
+            LET RECURSIVE Args(_, _)
+                Args(j, kk) == IF j > Len(t.a) THEN <<>>
+                               ELSE LET r == PrenexW(t.a[j], kk) IN <<r>> \o Args(j + 1, r.k)
+                rs == Args(1, k)
+            IN  PConj(t.op, FreeSyms(t), rs, IF rs = <<>> THEN k ELSE rs[Len(rs)].k)
+      [] t.op = "not" -> PNot(PrenexW(t.a[1], k))
+      [] t.op = "implies" ->
+            LET ra == PrenexW(t.a[1], k) rb == PrenexW(t.a[2], ra.k)
+            IN  PImplies(t.a[1], t.a[2], ra, rb, rb.k)
+      [] t.op = "iff" ->
+            LET ra == PrenexW(t.a[1], k) rb == PrenexW(t.a[2], ra.k)
+                i1 == PImplies(t.a[1], t.a[2], ra, rb, rb.k)
+                i2 == PImplies(t.a[2], t.a[1], rb, ra, i1.k)
+            IN  PConj("and", FreeSyms(t), <<i1, i2>>, i2.k)
+      [] IsBoolIte(t) ->
+            LET ri == PrenexW(t.a[1], k) rt == PrenexW(t.a[2], ri.k) re == PrenexW(t.a[3], rt.k)
+                rni == PNot(ri)
+                i1 == PImplies(t.a[1], t.a[2], ri, rt, re.k)
+                \* Implies(Not i, e): its negated antecedent Not(Not i) is i again, with the quantifiers of Not i inverted
+                i2 == PConj("or", FreeSyms(t.a[1]) \cup FreeSyms(t.a[3]), <<PNot(rni), re>>, i1.k)
+            IN  PConj("and", FreeSyms(t), <<i1, i2>>, i2.k)
+      [] t.op \in {"forall", "exists"} ->
+            LET r == PrenexW(t.a[1], k)
+                inner == UNION {NamesOf(r.qs[j].vs) : j \in 1..Len(r.qs)}
+                nq == {v \in SeqSet(t.bv) : v.n \notin inner}
+            IN  IF nq = {} THEN r ELSE PR(Append(r.qs, [q |-> t.op, vs |-> nq]), r.m, r.k)
+      [] OTHER -> PR(<<>>, t, k)
+
+RECURSIVE PWrap(_, _, _)
+PWrap(qs, j, m) == IF j > Len(qs) THEN m ELSE PWrap(qs, j + 1, Quant(qs[j].q, SetToSeqBy(qs[j].vs), m))
+PrenexM(t) == LET r == PrenexW(t, 0) IN PWrap(r.qs, 1, r.m)
+
+RewrModel(proc, t) == CASE proc = "nnf" -> NnfM(t) [] proc = "prenex" -> PrenexM(t) [] OTHER -> AigM(t)
 =============================================================================
